@@ -263,6 +263,23 @@ def r01_3_recursion(ctx):
                     f.key('class-arm:%s' % norm(c)), f.loc(c),
                     'class arm does not process each present attribute with its declared type / does not store it back')
             cls_ok = cls_ok or good
+            # an attribute that the loop itself brings into being under the parameter's name (a key renamed to it, a value set under
+            # it) is present from then on: the processing of that attribute has to come after it in the same iteration
+            for lo_ in [l_ for l_ in enclosing_loops(c, f.node) if isinstance(l_, ast.For)][:1]:
+                name_vars = {x.id for x in ast.walk(lo_.target) if isinstance(x, ast.Name)}
+                head = f.nid(lo_.iter)
+                for w_ in [n_ for n_ in ast.walk(lo_) if isinstance(n_, ast.Call) and isinstance(n_.func, ast.Attribute)
+                           and n_.func.attr in ('rename_attribute', 'set_attribute') and n_ is not parent(c)
+                           and not any(x_ is c for x_ in ast.walk(n_))]:
+                    made = w_.args[1] if w_.func.attr == 'rename_attribute' and len(w_.args) == 2 else w_.args[0] if w_.args else None
+                    if not (isinstance(made, ast.Name) and made.id in name_vars) or f.nid(w_) is None:
+                        continue
+                    after = f.cfg.reachable(f.nid(w_), avoid={head} if head is not None else frozenset())
+                    r.check(f.nid(c) in after, 'class arm: an attribute made present by %s is processed afterwards' % norm(w_)[:40],
+                            f.key('class-arm:made-present-unprocessed:%s' % w_.func.attr), f.loc(w_),
+                            '%s makes the attribute present, but within the same iteration the processing of that attribute cannot be '
+                            'reached any more: the value is never recognised against the declared type nor retagged (a bool where an '
+                            'int is declared reaches __init__)' % norm(w_)[:60])
         else:
             r.fail(f.key('unguarded-recursion:%s' % norm(c)), f.loc(c),
                    'recursive __process_node call outside the sequence/mapping/class arms (guards: %s)' % sorted(gt))
